@@ -138,3 +138,24 @@ def in_f2dot14(v):
 
 def in_fixed(v):
     return FIXED_MIN <= v and v <= FIXED_MAX
+
+
+# ---------------------------------------------------------------------------- ghost: a wrapped paint
+from typing import NamedTuple, Any
+
+
+class Wrapped(NamedTuple):
+    """ghost summary of `transformed(M, paint)`: `paint` drawn through the affine `m`"""
+
+    paint: Any
+    m: Any
+
+
+def placed(p):
+    """(affine, inner paint) of a paint that may be wrapped in one transform paint"""
+    k = kind(p)
+    if k == "Wrapped":
+        return (p.m, p.paint)
+    if k in TRANSFORM_KINDS:
+        return (ot_transform(p), p.paint)
+    return (ID, p)
